@@ -1,1 +1,357 @@
-//! cqlref::retry - independent reference (see DESIGN.md 1.3). Owned by the builder of the property that needs it.
+//! cqlref::retry - the retry-safety statement of C06 as tables, plus a reference interpreter of retry
+//! decisions (what the execution loop must do with them). Written from the property text, shares no
+//! code or types with the driver: the harness maps driver values onto these enums.
+//!
+//! Statement (C06): with the built-in policies a statement that is not marked idempotent is sent again only
+//! after a failure that proves the previous attempt was not applied (unavailable, bootstrapping, no free
+//! stream id on the client, read timeout); after a broken connection, an overloaded/server/truncate error or
+//! a write timeout it is never sent again; the default policy never retries at serial consistency; the number
+//! of attempts is bounded by plan length + the policy's fixed number of same-node retries; the driver sends
+//! exactly the attempts the policy decided.
+
+#[derive(Clone, Copy, PartialEq, Eq, Debug, Hash, PartialOrd, Ord)]
+pub enum Policy {
+    Default,
+    Downgrading,
+    Fallthrough,
+}
+
+impl Policy {
+    pub const ALL: [Policy; 3] = [Policy::Default, Policy::Downgrading, Policy::Fallthrough];
+    pub fn name(self) -> &'static str {
+        match self {
+            Policy::Default => "default",
+            Policy::Downgrading => "downgrading",
+            Policy::Fallthrough => "fallthrough",
+        }
+    }
+    pub fn from_name(s: &str) -> Option<Policy> {
+        Policy::ALL.into_iter().find(|p| p.name() == s)
+    }
+    /// The policy's fixed number of same-node retries per request (per retry session).
+    /// Default: one after a read timeout + one after a (batch-log) write timeout; Downgrading: a single
+    /// retry of any kind; Fallthrough: none.
+    pub fn same_target_bound(self) -> u32 {
+        match self {
+            Policy::Default => 2,
+            Policy::Downgrading => 1,
+            Policy::Fallthrough => 0,
+        }
+    }
+}
+
+/// What a failed attempt tells about whether the statement may have been applied.
+#[derive(Clone, Copy, PartialEq, Eq, Debug, Hash, PartialOrd, Ord)]
+pub enum ErrClass {
+    // proves the attempt was not applied
+    Unavailable,
+    IsBootstrapping,
+    StreamIdExhausted,
+    ReadTimeout,
+    // named by the statement as "never sent again"
+    WriteTimeout,
+    BrokenConnection,
+    Overloaded,
+    ServerError,
+    TruncateError,
+    /// any other database error (syntax, invalid, read/write failure, unprepared, rate limit, ...)
+    OtherDb,
+    /// driver-side errors: response parse errors, serialization errors, unexpected response, ...
+    ClientSide,
+}
+
+impl ErrClass {
+    pub const ALL: [ErrClass; 11] = [
+        ErrClass::Unavailable,
+        ErrClass::IsBootstrapping,
+        ErrClass::StreamIdExhausted,
+        ErrClass::ReadTimeout,
+        ErrClass::WriteTimeout,
+        ErrClass::BrokenConnection,
+        ErrClass::Overloaded,
+        ErrClass::ServerError,
+        ErrClass::TruncateError,
+        ErrClass::OtherDb,
+        ErrClass::ClientSide,
+    ];
+    pub fn name(self) -> &'static str {
+        match self {
+            ErrClass::Unavailable => "unavailable",
+            ErrClass::IsBootstrapping => "bootstrapping",
+            ErrClass::StreamIdExhausted => "stream-id-exhausted",
+            ErrClass::ReadTimeout => "read-timeout",
+            ErrClass::WriteTimeout => "write-timeout",
+            ErrClass::BrokenConnection => "broken-connection",
+            ErrClass::Overloaded => "overloaded",
+            ErrClass::ServerError => "server-error",
+            ErrClass::TruncateError => "truncate-error",
+            ErrClass::OtherDb => "other-db-error",
+            ErrClass::ClientSide => "client-side-error",
+        }
+    }
+    /// The only failures after which a non-idempotent statement may be sent again.
+    pub fn proves_not_applied(self) -> bool {
+        matches!(self, ErrClass::Unavailable | ErrClass::IsBootstrapping | ErrClass::StreamIdExhausted | ErrClass::ReadTimeout)
+    }
+}
+
+/// The eleven CQL consistency levels (names as in the protocol specification).
+#[derive(Clone, Copy, PartialEq, Eq, Debug, Hash, PartialOrd, Ord)]
+pub enum Cl {
+    Any,
+    One,
+    Two,
+    Three,
+    Quorum,
+    All,
+    LocalQuorum,
+    EachQuorum,
+    Serial,
+    LocalSerial,
+    LocalOne,
+}
+
+impl Cl {
+    /// protocol order (wire codes 0x0000..0x000A)
+    pub const ALL: [Cl; 11] = [Cl::Any, Cl::One, Cl::Two, Cl::Three, Cl::Quorum, Cl::All, Cl::LocalQuorum, Cl::EachQuorum, Cl::Serial, Cl::LocalSerial, Cl::LocalOne];
+    pub fn code(self) -> u16 {
+        Cl::ALL.iter().position(|c| *c == self).unwrap() as u16
+    }
+    pub fn from_code(c: u16) -> Option<Cl> {
+        Cl::ALL.get(c as usize).copied()
+    }
+    pub fn name(self) -> &'static str {
+        match self {
+            Cl::Any => "ANY",
+            Cl::One => "ONE",
+            Cl::Two => "TWO",
+            Cl::Three => "THREE",
+            Cl::Quorum => "QUORUM",
+            Cl::All => "ALL",
+            Cl::LocalQuorum => "LOCAL_QUORUM",
+            Cl::EachQuorum => "EACH_QUORUM",
+            Cl::Serial => "SERIAL",
+            Cl::LocalSerial => "LOCAL_SERIAL",
+            Cl::LocalOne => "LOCAL_ONE",
+        }
+    }
+    pub fn is_serial(self) -> bool {
+        matches!(self, Cl::Serial | Cl::LocalSerial)
+    }
+}
+
+#[derive(Clone, Copy, PartialEq, Eq, Debug, Hash, PartialOrd, Ord)]
+pub enum Decision {
+    /// send again to the same target; `None` keeps the consistency
+    RetrySame(Option<Cl>),
+    /// send to the next target of the plan
+    RetryNext(Option<Cl>),
+    DontRetry,
+    /// report an empty success to the caller; nothing is sent
+    IgnoreWrite,
+}
+
+impl Decision {
+    pub fn is_resend(self) -> bool {
+        matches!(self, Decision::RetrySame(_) | Decision::RetryNext(_))
+    }
+    pub fn kind(self) -> &'static str {
+        match self {
+            Decision::RetrySame(None) => "same",
+            Decision::RetrySame(Some(_)) => "same+cl",
+            Decision::RetryNext(None) => "next",
+            Decision::RetryNext(Some(_)) => "next+cl",
+            Decision::DontRetry => "stop",
+            Decision::IgnoreWrite => "ignore",
+        }
+    }
+}
+
+#[derive(Clone, Debug, PartialEq, Eq)]
+pub struct Complaint {
+    /// stable key (site + shape)
+    pub key: String,
+    pub text: String,
+}
+
+/// Judges the decisions of one retry session (one request) against the statement.
+#[derive(Clone, Debug)]
+pub struct SessionJudge {
+    pub policy: Policy,
+    pub idempotent: bool,
+    pub same_target_retries: u32,
+    pub resends: u32,
+}
+
+impl SessionJudge {
+    pub fn new(policy: Policy, idempotent: bool) -> SessionJudge {
+        SessionJudge { policy, idempotent, same_target_retries: 0, resends: 0 }
+    }
+
+    /// `cl` is the consistency the failed attempt was sent with.
+    pub fn step(&mut self, class: ErrClass, cl: Cl, d: Decision) -> Vec<Complaint> {
+        let mut out = Vec::new();
+        let p = self.policy.name();
+        if d.is_resend() {
+            self.resends += 1;
+            if !self.idempotent && !class.proves_not_applied() {
+                out.push(Complaint {
+                    key: format!("policy:{p}:nonidempotent-resend-after:{}", class.name()),
+                    text: format!("{p} policy decided {d:?} for a NON-idempotent request after {} (the attempt may have been applied)", class.name()),
+                });
+            }
+            if self.policy == Policy::Default && cl.is_serial() {
+                out.push(Complaint {
+                    key: "policy:default:resend-at-serial".to_string(),
+                    text: format!("default policy decided {d:?} at serial consistency {} after {}", cl.name(), class.name()),
+                });
+            }
+        }
+        if let Decision::RetrySame(_) = d {
+            self.same_target_retries += 1;
+            if self.same_target_retries > self.policy.same_target_bound() {
+                out.push(Complaint {
+                    key: format!("policy:{p}:same-target-retries-exceed-bound"),
+                    text: format!("{p} policy decided its same-target retry number {} in one session (fixed bound {})", self.same_target_retries, self.policy.same_target_bound()),
+                });
+            }
+        }
+        out
+    }
+}
+
+// ------------------------------------------------------------------------------------------------
+// Reference interpreter of decisions: what the execution loop has to do.
+
+/// Scripted result of the k-th attempt that is actually sent.
+#[derive(Clone, Copy, PartialEq, Eq, Debug, Hash)]
+pub enum Step {
+    Success,
+    /// the attempt fails and the policy decides this
+    Fail(Decision),
+}
+
+#[derive(Clone, Copy, PartialEq, Eq, Debug, Hash)]
+pub enum LoopOutcome {
+    /// result of the attempt with this index (into `attempts`) is returned as the success
+    Success { attempt: usize },
+    /// empty success; coordinator = target of this attempt
+    IgnoredWrite { attempt: usize },
+    /// the error of this attempt is returned
+    LastAttemptError { attempt: usize },
+    /// the last thing that happened was a target without a connection: its pool error is returned
+    PoolError { target: usize },
+    EmptyPlan,
+    /// the script ended while the loop still wanted to send (harness error, not a verdict)
+    ScriptExhausted,
+}
+
+#[derive(Clone, Debug, PartialEq, Eq)]
+pub struct LoopExpect {
+    /// (target index, consistency) of every attempt sent, in order
+    pub attempts: Vec<(usize, Cl)>,
+    pub outcome: LoopOutcome,
+}
+
+/// `p` plan targets 0..p in plan order; `no_conn[t]` = target t hands out no connection (it is skipped without
+/// an attempt and without consulting the policy); `script[k]` = fate of the k-th attempt sent.
+pub fn interpret(p: usize, no_conn: &[bool], cl0: Cl, script: &[Step]) -> LoopExpect {
+    let mut attempts = Vec::new();
+    let mut cl = cl0;
+    let mut outcome = LoopOutcome::EmptyPlan;
+    let mut k = 0usize;
+    let mut t = 0usize;
+    'plan: while t < p {
+        if no_conn.get(t).copied().unwrap_or(false) {
+            outcome = LoopOutcome::PoolError { target: t };
+            t += 1;
+            continue;
+        }
+        loop {
+            let Some(step) = script.get(k) else {
+                outcome = LoopOutcome::ScriptExhausted;
+                break 'plan;
+            };
+            attempts.push((t, cl));
+            let idx = k;
+            k += 1;
+            match *step {
+                Step::Success => {
+                    outcome = LoopOutcome::Success { attempt: idx };
+                    break 'plan;
+                }
+                Step::Fail(d) => {
+                    outcome = LoopOutcome::LastAttemptError { attempt: idx };
+                    match d {
+                        Decision::RetrySame(c) => {
+                            cl = c.unwrap_or(cl);
+                        }
+                        Decision::RetryNext(c) => {
+                            cl = c.unwrap_or(cl);
+                            t += 1;
+                            continue 'plan;
+                        }
+                        Decision::DontRetry => break 'plan,
+                        Decision::IgnoreWrite => {
+                            outcome = LoopOutcome::IgnoredWrite { attempt: idx };
+                            break 'plan;
+                        }
+                    }
+                }
+            }
+        }
+    }
+    LoopExpect { attempts, outcome }
+}
+
+/// Upper bound on attempts the statement allows: plan length + the policy's fixed number of same-node retries.
+pub fn attempts_bound(p: usize, policy: Policy) -> usize {
+    p + policy.same_target_bound() as usize
+}
+
+/// Known-answer self-test of this module (run at the start of every check that uses it).
+pub fn self_test() -> Result<(), String> {
+    use Decision::*;
+    let e = interpret(3, &[false, false, false], Cl::Quorum, &[Step::Fail(RetrySame(Some(Cl::One))), Step::Fail(RetryNext(None)), Step::Fail(RetryNext(Some(Cl::Two))), Step::Success]);
+    if e.attempts != vec![(0, Cl::Quorum), (0, Cl::One), (1, Cl::One), (2, Cl::Two)] || e.outcome != (LoopOutcome::Success { attempt: 3 }) {
+        return Err(format!("interpret known answer 1: {e:?}"));
+    }
+    let e = interpret(2, &[true, false], Cl::One, &[Step::Fail(RetryNext(None)), Step::Success]);
+    if e.attempts != vec![(1, Cl::One)] || e.outcome != (LoopOutcome::LastAttemptError { attempt: 0 }) {
+        return Err(format!("interpret known answer 2: {e:?}"));
+    }
+    let e = interpret(2, &[false, true], Cl::One, &[Step::Fail(RetryNext(None)), Step::Success]);
+    if e.attempts != vec![(0, Cl::One)] || e.outcome != (LoopOutcome::PoolError { target: 1 }) {
+        return Err(format!("interpret known answer 3: {e:?}"));
+    }
+    if interpret(0, &[], Cl::One, &[Step::Success]).outcome != LoopOutcome::EmptyPlan {
+        return Err("interpret known answer 4".into());
+    }
+    let mut j = SessionJudge::new(Policy::Default, false);
+    if !j.step(ErrClass::Unavailable, Cl::One, RetryNext(None)).is_empty() {
+        return Err("judge: unavailable must allow a resend".into());
+    }
+    if j.step(ErrClass::Overloaded, Cl::One, RetryNext(None)).len() != 1 {
+        return Err("judge: overloaded resend must be refused for non-idempotent".into());
+    }
+    if j.step(ErrClass::ReadTimeout, Cl::Serial, RetrySame(None)).len() != 1 {
+        return Err("judge: serial".into());
+    }
+    let mut j = SessionJudge::new(Policy::Downgrading, true);
+    let _ = j.step(ErrClass::ReadTimeout, Cl::One, RetrySame(None));
+    if j.step(ErrClass::WriteTimeout, Cl::One, RetrySame(None)).len() != 1 {
+        return Err("judge: same-target bound".into());
+    }
+    if Cl::Serial.code() != 8 || Cl::LocalOne.code() != 10 || Cl::from_code(6) != Some(Cl::LocalQuorum) {
+        return Err("consistency codes".into());
+    }
+    Ok(())
+}
+
+#[cfg(test)]
+mod tests {
+    #[test]
+    fn self_test_passes() {
+        super::self_test().unwrap();
+    }
+}
